@@ -3,7 +3,7 @@ NOTES = ("All checks: ./check <ID> [--tier quick|thorough]; seeds derive from VE
          "Genuine defects found by the checks were repaired by 'fix:' commits in /repo and are listed in known_findings.json; "
          "their shrunk inputs are replayed on every run from regress/<ID>/. Eight findings are recorded as open (status known: C06 x2, C11, C14, C19 x4) "
          "and are printed as KNOWN-FINDING lines with exit 0; any other violation of the same property has a different signature and is reported as VIOLATION. "
-         "360 independently seeded property-breaking changes are kept under seeded/ (DESIGN.md section 5).")
+         "407 independently seeded property-breaking changes are kept under seeded/ (DESIGN.md section 5).")
 
 NOT_APPLICABLE = {}
 
